@@ -17,7 +17,7 @@ remove(axis=..)) - each on its own copy of the state.  Oracles on every transiti
      group labels currently on that axis
  (f) the state reached functionally equals the state reached by replaying the whole history in place on ONE
      fresh live object (mutating forms, no copies)
- (g) no aliasing: at every expanded state the object returned by each kind of non-mutating operation (and by
+ (g) no aliasing: at every initial and depth-1 state the object returned by each kind of non-mutating operation (and by
      copy()/copy.copy()/deepcopy(), and the genotyping outputs) is mutated by every axis-specific mutating operation
      while the source and the operand must stay bit-identical, and the source is mutated while the earlier result
      must stay bit-identical (run wherever result and source share array memory)
@@ -47,9 +47,9 @@ ID = "C03"
 TECHNIQUE = ("explicit-state breadth-first search over operation histories on real matrix objects (canonical-state "
              "de-duplication), lock-step with a list-of-entities reference model; every abstract operation is run "
              "through all its public forms (axis-specific / axis-generic +-axis / mutating) as a differential oracle")
-RULE = ("[+ oracle (g) at every expanded state: mutate the result of each kind of copy-on-manipulation operation / "
+RULE = ("[+ oracle (g) at every initial and depth-1 state: mutate the result of each kind of copy-on-manipulation operation / "
         "copy / genotyping output and require source and operand bit-identical, and vice versa; + at every initial state "
-        "(thorough: also depth-1 states) every operand-taking operation with matrix / ndarray operand x every single "
+        "every operand-taking operation with matrix / ndarray operand x every single "
         "label keyword override, all overrides, names omitted] state = all observable fields of the object (mat bytes, every label array or None, every group-metadata "
         "array or None, dtypes); transition = one abstract structural operation (select / delete / insert / adjoin / "
         "concat / reorder / sort / explicit-key sort / group / ungroup on one labelled axis, with every valid index "
@@ -1164,7 +1164,7 @@ def explore_shard(ctx, D, inits, depth, nmax, part=None, do_live=True, gt=False,
         ctx.state(node.key)
         if gt:
             genotyping(ctx, D, node, h)
-        if depth >= 1 and len(h) <= (1 if ctx.tier == "thorough" else 0):
+        if depth >= 1 and len(h) == 0:
             argform_check(ctx, D, node, h)
         r = node.ref
         for k in D.kinds:
@@ -1182,8 +1182,8 @@ def explore_shard(ctx, D, inits, depth, nmax, part=None, do_live=True, gt=False,
             # an in-place write through one of THEM (reported there by oracle g) reached it: restore it
             ctx.count("node-restored-after-aliased-write")
             node.obj = build(D, node.ref)
-        if part is None or len(h) > 0 or part[0] == 0:
-            alias_check(ctx, D, node, h)
+        if len(h) <= 1 and (part is None or len(h) > 0 or part[0] == 0):
+            alias_check(ctx, D, node, h)      # what shares memory depends on class and method, not on the history
         for i, op in enumerate(ops):
             if part is not None and len(h) == 0 and i % part[1] != part[0]:
                 continue
